@@ -26,7 +26,9 @@ import (
 	"fmt"
 	"io"
 	"net/http"
+	"os"
 	"regexp"
+	"runtime"
 	"runtime/debug"
 	"strings"
 	"testing"
@@ -308,6 +310,7 @@ type c20DOp struct {
 	Kind string `json:"kind,omitempty"` // C only
 	Pos  int    `json:"pos"`
 	s    []byte
+	big  bool // decoding this corruption allocates a lot (inflated size field): collect right after the history
 }
 
 type c20DStep struct {
@@ -501,7 +504,7 @@ func c20Seqs(kinds []string, l int) [][]string {
 //   - several C: the diagonal (same variant at every C, every variant) and the
 //     full product over the class representatives; with fullPairs and exactly
 //     two C the full product variants x variants instead.
-func c20Instantiate(seq []string, vars []c20Variant, streams [][]byte, reps []int, fullPairs bool, emit func([]c20DOp)) {
+func c20Instantiate(seq []string, vars []c20Variant, streams [][]byte, bigs []bool, reps []int, fullPairs bool, emit func([]c20DOp)) {
 	var cpos []int
 	h := make([]c20DOp, len(seq))
 	for i, k := range seq {
@@ -511,7 +514,7 @@ func c20Instantiate(seq []string, vars []c20Variant, streams [][]byte, reps []in
 		}
 	}
 	set := func(p, vi int) {
-		h[p] = c20DOp{K: "C", Kind: vars[vi].Kind, Pos: vars[vi].Pos, s: streams[vi]}
+		h[p] = c20DOp{K: "C", Kind: vars[vi].Kind, Pos: vars[vi].Pos, s: streams[vi], big: bigs[vi]}
 	}
 	switch {
 	case len(cpos) == 0:
@@ -667,11 +670,31 @@ func c20DecompSearch(t *testing.T, r *rep.Report, deadline time.Time, k *int64) 
 			for _, rk := range readers {
 				// class representatives: first variant of each distinct fresh-instance behaviour
 				var reps []int
+				bigs := make([]bool, len(vars))
 				seen := map[string]bool{}
 				for vi := range vars {
 					h := []c20DOp{{K: "C", Kind: vars[vi].Kind, Pos: vars[vi].Pos, s: streams[vi]}}
+					var m0, m1 runtime.MemStats
+					runtime.ReadMemStats(&m0)
 					steps, _, _ := rn.run(enc, in, valid, rk, h, true)
 					st := steps[0]
+					runtime.ReadMemStats(&m1)
+					if mb := (m1.TotalAlloc - m0.TotalAlloc) >> 20; mb > 16 {
+						// not a violation of C20 (nothing crashes, later decodes are fine), but worth knowing;
+						// the harness collects garbage right after such a history to keep its own footprint bounded
+						bigs[vi] = true
+						debug.FreeOSMemory()
+						if r.Shard == 0 {
+							r.Outcome(fmt.Sprintf("corrupt-decode:%s:allocates-more-than-16MB", enc.Name))
+							if mb > 512 {
+								r.Note("observation (not a violation): decoding the %d-byte %s stream of input %q with %s@%d makes the decompressor allocate %d MB (read_err=%q); stream=%x",
+									len(streams[vi]), enc.Name, in.Name, vars[vi].Kind, vars[vi].Pos, mb, st.ReadErr, streams[vi])
+							}
+						}
+						if os.Getenv("C20_DEBUG") != "" {
+							fmt.Printf("C20_DEBUG bigalloc %s/%s/%s %s@%d: %d MB (reset_err=%q read_err=%q n=%d) stream=%x\n", enc.Name, in.Name, rk, vars[vi].Kind, vars[vi].Pos, mb, st.ResetErr, st.ReadErr, st.N, streams[vi])
+						}
+					}
 					bucket := "0"
 					switch {
 					case st.Same:
@@ -689,6 +712,11 @@ func c20DecompSearch(t *testing.T, r *rep.Report, deadline time.Time, k *int64) 
 						reps = append(reps, vi)
 					}
 				}
+				if os.Getenv("C20_DEBUG") != "" {
+					var ms runtime.MemStats
+					runtime.ReadMemStats(&ms)
+					fmt.Printf("C20_DEBUG before %s/%s/%s: goroutines=%d heap_alloc=%dMB heap_sys=%dMB stacks=%dMB k=%d\n", enc.Name, in.Name, rk, runtime.NumGoroutine(), ms.HeapAlloc>>20, ms.HeapSys>>20, ms.StackSys>>20, *k)
+				}
 				if r.Shard == 0 {
 					r.Count("corrupt-variants", int64(len(vars)))
 					r.Count("corrupt-class-representatives", int64(len(reps)))
@@ -697,7 +725,7 @@ func c20DecompSearch(t *testing.T, r *rep.Report, deadline time.Time, k *int64) 
 					for _, seq := range c20Seqs(c20DKinds, l) {
 						fullPairs := rep.Thorough() && in.Short && l <= 3 && rk == "buffer"
 						stop := false
-						c20Instantiate(seq, vars, streams, reps, fullPairs, func(h []c20DOp) {
+						c20Instantiate(seq, vars, streams, bigs, reps, fullPairs, func(h []c20DOp) {
 							if stop {
 								return
 							}
@@ -712,6 +740,12 @@ func c20DecompSearch(t *testing.T, r *rep.Report, deadline time.Time, k *int64) 
 								return
 							}
 							_, verdicts, classes := rn.run(enc, in, valid, rk, h, false)
+							for _, op := range h {
+								if op.big {
+									debug.FreeOSMemory() // forces a collection and returns the pages
+									break
+								}
+							}
 							r.Eval(1)
 							r.Count("decompressor-histories", 1)
 							r.Count(fmt.Sprintf("decompressor-histories-len%d", l), 1)
@@ -1042,6 +1076,9 @@ func TestVerifC20Hist(t *testing.T) {
 		c20Replay(t, r, data)
 		return
 	}
+	// safety net for the harness' own footprint: some corruptions inflate a size field and make a decoder
+	// allocate gigabytes of (untouched) memory, which would otherwise inflate the GC goal
+	defer debug.SetMemoryLimit(debug.SetMemoryLimit(3 << 30))
 	deadline := rep.Deadline()
 	var k int64
 	c20CompSearch(t, r, deadline, &k)
